@@ -69,6 +69,21 @@ CHECKS = {
             "Every command the writer emits for the workload is read back and compared (kind, symbols, operands up to evaluation equivalence); generated model-value texts in solver spellings must be read as exactly their denotation and truncated/unbalanced variants must yield an error, never a wrong value or a panic. Held on the texts executed.",
             "get-value responses are exercised through parse_expr here and through the live SolverContext::get_value path in C02/C03.",
             "DESIGN.md §4 C14"),
+    "C02": ("exploration",
+            "runtime monitor: bmc verdicts (library and tools/mc) against a strict reference solver on PATH, compared with explicit-state reachability and across solver profiles / modes / simplification",
+            "patronus::mc::bmc runs through the real SmtLibSolverCtx text protocol against refsolver (strict SMT-LIB monitor with the four solver capability profiles, z3 as decision back end) on generated systems; every verdict is compared with an independent explicit-state search and with the other configurations; the shipped tools/mc binary is run on written btor2 files incl. stateless systems. Held on the runs executed.",
+            "Oracle = explicit-state BFS over <= 2^8 states x 2^4 inputs; z3 4.8.12 decides satisfiability inside the reference solver.",
+            "DESIGN.md §4 C02"),
+    "C03": ("exploration",
+            "runtime monitor: every Fail(witness) of bmc replayed in the reference simulator and in patronus' interpreter, under randomised solver models",
+            "Each failing generated system is solved 8 times with different solver profiles, seeds, model diversification and value spellings; every witness is validated field by field against the transition-system semantics (init, constraints, bad at the last step, exact failed list, names, completeness) and replayed differentially in patronus::sim::Interpreter. Held on the witnesses executed.",
+            "Model variety comes from z3 seeds + explicit diversification in the reference solver.",
+            "DESIGN.md §4 C03"),
+    "C04": ("exploration",
+            "offline checker over the recorded solver conversation (strict scope/sort checker) + evaluation of the recorded script under concrete reference executions",
+            "UnrollSmtEncoding is driven through both entry points into the reference solver; the event log must contain no rejected command, and the recorded script, loaded into the R6 evaluator and bound to concrete executions of the reference simulator, must give every state/input/constraint/bad step symbol the value that signal has in that step. Held on the scripts and executions listed.",
+            "12 (thorough: 60) random executions per script; strictness as in C05.",
+            "DESIGN.md §4 C04"),
 }
 
 NOT_YET = {}
